@@ -89,7 +89,13 @@ class RandomState:
                 meta,
             ) = _choice_validate_params(self, a, size, replace, p, 0, chunks)
 
-            return new_collection(RandomChoice(a_val, a_expr, chunks, meta, self._numpy_state, replace, p_expr))
+            # One fixed realization: the node holds a frozen snapshot of the state
+            # and the live state is advanced by what the node draws from it.
+            import copy
+
+            state = copy.deepcopy(self._numpy_state)
+            self._numpy_state.bytes(16)
+            return new_collection(RandomChoice(a_val, a_expr, chunks, meta, state, replace, p_expr))
 
     @derived_from(np.random.RandomState, skipblocks=1)
     def exponential(self, scale=1.0, size=None, chunks="auto", **kwargs):
